@@ -43,7 +43,8 @@ def lineExtendsF (prev start e : Pt Float) : Bool :=
   let div := GenF.Point.PerpDot da db
   let length := goHypot da.x da.y * goHypot db.x db.y
   if GenF.Equal (div / length) 0.0 then
-    if da.y < da.x then signbit da.x == signbit db.x else signbit da.y == signbit db.y
+    -- the dominant axis by magnitude (219108c)
+    if da.y.abs < da.x.abs then signbit da.x == signbit db.x else signbit da.y == signbit db.y
   else false
 
 /-- path.go:562-575 -/
